@@ -6,7 +6,7 @@
 From Coq Require Import List Bool Arith NArith Lia.
 From Coq.Strings Require Import Byte.
 From GI Require Import Lib.Bytes Gen.TsParseConsts TsParse.TsParse TsParse.TsSpec TsParse.TsParseFacts
-  TsParse.TsEnvFacts.
+  TsParse.TsEnvFacts TsParse.TsHolds TsParse.TsRegexFacts TsParse.TsCmpFacts TsParse.TsHoldsFacts.
 From GI Require Import TsParse.TsScript.
 Import ListNotations.
 Local Notation bytes := (list byte) (only parsing).
@@ -265,8 +265,6 @@ Proof.
   - rewrite IH. destruct (last_assign k b); reflexivity.
 Qed.
 
-Definition pick (o : option bytes) (d : bytes) : bytes := match o with Some v => v | None => d end.
-
 Lemma cmd_env_getenv : forall args st k,
   getenv (cmd_env args st) k = pick (last_assign k (cmd_assigns (HEnv args))) (getenv st k).
 Proof.
@@ -351,6 +349,36 @@ Theorem history_child_pwd : forall h s l,
   child_env (hs_env (hrun h s)) (hs_cd (hrun h s)) = Some l ->
   child_lookup pwd_key l = Some (pick (last_cd h) (hs_cd s)).
 Proof. intros h s l H. rewrite (child_pwd _ _ _ H). rewrite hrun_cd. reflexivity. Qed.
+
+(* ------------------------------------------------------------------ the executable form *)
+
+Lemma envmap_eqb_refl : forall a, envmap_eqb a a = true.
+Proof. induction a as [|[k v] a IH]; [reflexivity|]. simpl. rewrite !bytes_eqb_refl, IH. reflexivity. Qed.
+
+Lemma hstate_eqb_eq : forall a b, a = b -> hstate_eqb a b = true.
+Proof.
+  intros a b H. subst b. unfold hstate_eqb. rewrite words_eqb_refl, envmap_eqb_refl, bytes_eqb_refl. reflexivity.
+Qed.
+
+Theorem history_holds_true : forall h vars cd0 k, history_holds h vars cd0 k = true.
+Proof.
+  intros h vars cd0 k. unfold history_holds.
+  set (s0 := {| hs_env := setup_env vars; hs_cd := cd0 |}).
+  rewrite (hstate_eqb_eq _ _ (readonly_commands_frame h s0)).
+  assert (Hg : getenv (hs_env (hrun h s0)) k
+               = pick (last_assign k (hist_assigns h)) (or_empty (list_get vars k))).
+  { rewrite history_latest_wins. unfold s0. simpl hs_env. rewrite (setup_consistent vars k). reflexivity. }
+  rewrite (bytes_eqb_eq _ _ Hg).
+  simpl andb.
+  destruct (child_env (hs_env (hrun h s0)) (hs_cd (hrun h s0))) as [l|] eqn:E; [|reflexivity].
+  assert (Hp : child_lookup pwd_key l = Some (pick (last_cd h) cd0)) by exact (history_child_pwd h s0 l E).
+  rewrite (opt_bytes_eqb_eq _ _ Hp). simpl andb.
+  destruct (forallb api_ok h) eqn:Eok; [|reflexivity].
+  destruct (regularb k) eqn:Ek; [|reflexivity]. apply regularb_ok in Ek.
+  destruct (bytes_eqb k pwd_key) eqn:Ep; [reflexivity|]. apply bytes_eqb_false in Ep.
+  simpl. apply bytes_eqb_eq.
+  exact (proj1 (history_child_agrees h vars cd0 k l Eok Ek Ep E)).
+Qed.
 
 (* ------------------------------------------------------------------ the listing *)
 
@@ -450,7 +478,8 @@ Example history_ex :
   child_env (hs_env (hrun ex_hist s0)) (hs_cd (hrun ex_hist s0))
   = Some [bs "WORK=/w"%string; bs "X=a"%string; bs "Y=1"%string; bs "Z=z z"%string; bs "PWD=/w/sub"%string] /\
   env_listing (hs_env (hrun ex_hist s0))
-  = Some [(bs "WORK"%string, bs "/w"%string); (bs "X"%string, bs "a"%string); (bs "Y"%string, bs "1"%string); (bs "Z"%string, bs "z z"%string)].
+  = Some [(bs "WORK"%string, bs "/w"%string); (bs "X"%string, bs "a"%string); (bs "Y"%string, bs "1"%string); (bs "Z"%string, bs "z z"%string)] /\
+  history_holds ex_hist [bs "WORK=/w"%string; bs "X=zz"%string] (bs "/w"%string) (bs "X"%string) = true.
 Proof.
   split; [reflexivity|]. split; [split; [discriminate|reflexivity]|]. split; [discriminate|].
   vm_compute. repeat split.
